@@ -103,6 +103,13 @@ func (cfg *Config) VerifyConfig(schema base.LogSchema) error {
 		return fmt.Errorf(".serialization.environmentFields is unspecified")
 	}
 
+	if _, err := schema.CreateFieldLocators(cfg.Serialization.EnvironmentFields); err != nil {
+		return fmt.Errorf(".serialization.environmentFields%w", err)
+	}
+	if _, err := schema.CreateFieldLocators(cfg.Serialization.HiddenFields); err != nil {
+		return fmt.Errorf(".serialization.hiddenFields%w", err)
+	}
+
 	for field, rewriteConfig := range cfg.Serialization.RewriteFields {
 		if _, err := schema.CreateFieldLocator(field); err != nil {
 			return fmt.Errorf(".serialization.rewriteFields[%s]: Field is invalid: %w", field, err)
